@@ -474,7 +474,7 @@ func HTTPRequest(req *Req, obs *Obs) *http.Request {
 	}
 	hr := &http.Request{
 		Method:     req.Method,
-		URL:        &url.URL{Path: req.Path, RawPath: req.RawPath},
+		URL:        &url.URL{Path: req.Path, RawPath: req.RawPath, RawQuery: req.Query},
 		Proto:      "HTTP/1.1",
 		ProtoMajor: 1,
 		ProtoMinor: 1,
@@ -482,6 +482,9 @@ func HTTPRequest(req *Req, obs *Obs) *http.Request {
 		Host:       "verif.test",
 		RequestURI: req.Path,
 		Body:       http.NoBody,
+	}
+	if req.Query != "" {
+		hr.RequestURI = req.Path + "?" + req.Query
 	}
 	if req.BodyLen > 0 {
 		body := []byte(strings.Repeat("b", req.BodyLen))
